@@ -519,7 +519,20 @@ def _collector(repo, rep):
               "R09.4", f.qualname, "a fill-slot on a use-macro element is "
               "collected by the enclosing use", construct="fill-index",
               where=L.where(f))
-    rep.check("slots.append(nodes.FillSlot(clause, slot))" in text, "R09.4",
+    fs = [n for n in ast.walk(f.node) if isinstance(n, ast.Call)
+          and src(n.func) == "nodes.FillSlot" and len(n.args) == 2]
+
+    def level(e):
+        # the slot-level node, possibly inside the element's on-error wrapper
+        if isinstance(e, ast.Call) and src(e.func) == "wrap" and \
+                len(e.args) == 2 and src(e.args[1]) == "ON_ERROR":
+            e = e.args[0]
+        return src(e)
+    okf = len(fs) == 1 and src(fs[0].args[0]) == "clause" and \
+        level(fs[0].args[1]) == "slot" and \
+        isinstance(getattr(fs[0], "_parent", None), ast.Call) and \
+        src(fs[0]._parent.func) == "slots.append"
+    rep.check(okf, "R09.4",
               f.qualname, "the filler is the element with its define/guard "
               "wrappers (slot level)", construct="fill-node", where=L.where(f))
 
